@@ -549,6 +549,9 @@ func (n *networkService) gcPods(ctx context.Context) error {
 	podResources := getPodResources(objList)
 
 	uidInLocal := sets.New[string]()
+	// a failure to clean up one record must not stop the others from being collected
+	var gcErr error
+nextPod:
 	for _, podRes := range podResources {
 		if podRes.PodInfo != nil {
 			if podRes.PodInfo.PodUID != "" {
@@ -617,7 +620,8 @@ func (n *networkService) gcPods(ctx context.Context) error {
 					ctx = logr.NewContext(ctx, serviceLog)
 					err = gcPolicyRoutes(ctx, v.ENIInfo.MAC, containerIP, podRes.PodInfo.Namespace, podRes.PodInfo.Name)
 					if err != nil {
-						return err
+						gcErr = errors.Join(gcErr, err)
+						continue nextPod
 					}
 				}
 			}
@@ -631,13 +635,15 @@ func (n *networkService) gcPods(ctx context.Context) error {
 				NetworkResources: []eni.NetworkResource{res},
 			})
 			if err != nil {
-				return err
+				gcErr = errors.Join(gcErr, err)
+				continue nextPod
 			}
 		}
 
 		err = n.deletePodResource(podRes.PodInfo)
 		if err != nil {
-			return err
+			gcErr = errors.Join(gcErr, err)
+			continue nextPod
 		}
 		uidInLocal.Delete(podRes.PodInfo.PodUID)
 		serviceLog.Info("removed pod", "pod", podID)
@@ -654,7 +660,7 @@ func (n *networkService) gcPods(ctx context.Context) error {
 	if err != nil {
 		serviceLog.Error(err, "error cleaning runtime node")
 	}
-	return nil
+	return gcErr
 }
 
 // cleanRuntimeNode localUIDs is the pod uid stored in db, so those pods should not be release in ipam
